@@ -7,6 +7,13 @@ echo "|---|---|---|" >> $out.tmp
 for d in seeded/*/; do
   d=${d%/}
   [ -f "$d/patch.diff" ] || continue
+  case "$(basename $d)" in refactor-*)
+    r=$(scripts/allchecks.sh "$d/patch.diff" 2>&1 | grep -v "^OK" | head -3 | tr '\n' ' ' | cut -c1-200)
+    [ -z "$r" ] && r="NO ALARM on any of the 15 quick checks (as required)"
+    echo "| $(basename $d) | all | ${r//|//} |" >> $out.tmp
+    echo "$(basename $d): $r"
+    continue;;
+  esac
   props=$(python3 -c "
 import json,sys
 m=json.load(open('$d/meta.json'))
